@@ -12,6 +12,7 @@ def sh(cmd):
 
 def main():
     src, sid, prop, *more = sys.argv[1:]
+    src = os.path.abspath(src)
     verif = os.path.dirname(os.path.dirname(os.path.abspath(__file__)))
     d = tempfile.mkdtemp(prefix="seed_", dir="/tmp")
     meta = {"id": sid, "breaks_property": prop, "source_dir": src}
